@@ -5,6 +5,7 @@ mod mp;
 mod script;
 mod sim;
 mod facts;
+mod tamper;
 mod gen_codes;
 
 use util::{Driver, Report};
@@ -37,6 +38,7 @@ fn main() {
         "C21" => props::c21::run(&mut ctx, &mut report),
         "C22" => props::c22::run(&mut ctx, &mut report),
         "C02" | "C03" | "C04" | "C05" | "C06" | "C07" | "C09" | "C10" | "C19" | "C20" => props::hist::run_property(&prop, &mut ctx, &mut report),
+        "traceops" => props::traceops::run(&mut ctx, &mut report),
         "probe" => props::probe::run(&mut ctx, &mut report),
         _ => { eprintln!("unknown property {prop}"); std::process::exit(2); }
     }));
